@@ -22,7 +22,9 @@ def add_tree(rep, wd, binpath, alphabet, policies, label, tree, trs, rows):
     trs.extend(trs_)
     for c, r in rows_:
         c["ti"] += off
-        c["node_policy"] = T.effective_policy(tree, c["path"], c["policy"])
+        c["root"] = tree.get("root", "app")
+        if c["npolicy"] != T.effective_policy(tree, c["path"], c["policy"]):
+            raise core.Broken("CmdTree.tla and vlib/tree.py disagree on the policy of %r" % c["path"])
     rows.extend(rows_)
     return rows_
 
